@@ -1736,9 +1736,12 @@ def legs(tier):
         na = len(alphabet(N))
         for L in ((1, 2) if (q or N == 3) else (1, 2, 3)):
             pr += [[N] + list(w) for w in itertools.product(range(na), repeat=L)]
+        if q and N == 2:
+            # quick tier: three-gate programs over the first 5 letters (three layers need three overlapping gates)
+            pr += [[N] + list(w) for w in itertools.product(range(min(5, na)), repeat=3)]
     out.append(Leg('c_circ', fn_c_circ, pr, chunk=2, timeout=3000,
                    bound='gate / layer / circuit forward and backward on the full string list and 3 states, configurations plain / copy / compiled / '
-                         'copy-of-compiled / composed at every cut: all programs of length <=%s over 8 letters (N=2) and <=2 over 12 letters (N=3)' % (2 if q else 3)))
+                         'copy-of-compiled / composed at every cut: all programs of length <=%s over 8 letters (N=2) and <=2 over 12 letters (N=3)%s' % (2 if q else 3, '; plus all 125 three-gate programs over the first 5 letters at N=2' if q else '')))
     out.append(Leg('c_diag', fn_c_diag, [[w, N] for w in ('rotation_gate', 'diagonalize') for N in (1, 2, 3)], chunk=1,
                    bound='clifford_rotation_gate: all Hermitian generators N<=3; diagonalize: all Hermitian Paulis x target qubit x causal flag N<=3, pure states N<=2'))
     return out
